@@ -68,6 +68,19 @@ def gen_cases(tier, rng):
         if ntot > (160 if tier == "quick" else 260):
             continue
         cases.append({"cls": "aggregate", "mols": mols, "J": J.tolist(), "mult": mult, "ntot": ntot, "cost": 0.5 + (ntot / 40.0) ** 2})
+    # many vibrational levels / strong displacement: the overlap table is needed up to its last tabulated level
+    for i in range(12 if tier == "quick" else 80):
+        nmol = 1 + (i % 2)
+        hi = (i % 3 == 0)
+        md = {"omega": r3(rng.uniform(100.0, 1600.0)), "hr": r3(rng.uniform(3.0, 7.0)) if hi else r3(rng.uniform(0.05, 2.0)),
+              "n0": int(rng.integers(2, 9)) if hi else int(rng.integers(10, 20)), "n1": int(rng.integers(6, 20)) if hi else int(rng.integers(10, 20))}
+        mols = [{"E": r3(rng.uniform(10000, 16000)), "modes": [md], "dip": [r3(x) for x in rng.normal(size=3)]}]
+        if nmol == 2:
+            mols.append({"E": r3(rng.uniform(10000, 16000)), "modes": [], "dip": [r3(x) for x in rng.normal(size=3)]})
+        Jv = r3(rng.uniform(10, 400))
+        J = [[0.0, Jv], [Jv, 0.0]] if nmol == 2 else [[0.0]]
+        ntot = md["n0"] + md["n1"] + (md["n0"] if nmol == 2 else 0)
+        cases.append({"cls": "aggregate", "mols": mols, "J": J, "mult": 1, "ntot": ntot, "deep": True, "cost": 0.5 + (ntot / 40.0) ** 2})
     for i in range(12 if tier == "quick" else 60):
         cases.append({"cls": "mode-accessors", "hr": r3(rng.uniform(0.0, 4.0)), "omega": r3(rng.uniform(50, 2000)),
                       "unit": str(rng.choice(["1/cm", "eV", "THz", "int"])), "n": [int(x) for x in rng.integers(1, 8, size=2)], "cost": 0.2})
